@@ -10,7 +10,7 @@ CHECKS = {
                     "before/after CONNECT, cut bodies, corrupted/huge/5-byte remaining lengths before and after CONNECT, packets larger than the ring or between size-8192 and size, reserved and server-only "
                     "types, malformed request bodies) and end by close, stall+close or silence, while a witness publisher sends numbered messages to a witness subscriber. Afterwards: no panic escaped a "
                     "connection handler, both witness connections still answer PINGREQ, and the witness subscriber holds exactly the witness sequence, in order, byte-identical. Unit trap parks a witness "
-                    "delivery addressed to the attacker at writeMessage.enter until the attacker's teardown has finished (the window named by the property). Unit child runs the broker in a child process with a 6 GiB address-space limit and no recover around the connection handler (as in production) and sends first packets that declare huge remaining lengths (5-byte encodings up to 32 GiB, the 256 MiB protocol maximum on six connections at once, a length that never terminates): the process must stay alive and the witness pair keep working. Fault classes are enumerated by kind; inputs within a class are sampled."),
+                    "delivery addressed to the attacker at writeMessage.enter until the attacker's teardown has finished (the window named by the property). Unit victim addresses the offender's valid PUBLISH packets (up to exactly the packet size limit) to a victim, parks the delivery of one of them at writeMessage.enter while the offender goes on sending (garbage, zeros, 0xff, or up to three rings of valid PINGREQs) and possibly closes: the victim must receive the accepted messages byte-identical, at least up to the parked one, and keep answering. Unit child runs the broker in a child process with a 6 GiB address-space limit and no recover around the connection handler (as in production) and sends first packets that declare huge remaining lengths (5-byte encodings up to 32 GiB, the 256 MiB protocol maximum on six connections at once, a length that never terminates): the process must stay alive and the witness pair keep working. Fault classes are enumerated by kind; inputs within a class are sampled."),
         level_note=("Trusted: harness/ref/codec, the witness oracle, the teardown-done hook and the yield hook writeMessage.enter. Pre-CONNECT declared remaining lengths above 1 MiB are capped "
                     "in the in-process units (the code allocates the declared size up front; capped streams are counted as class +capped) and exercised in unit child only; hangs are judged at quiescence only."),
         rule=("rapid-generated scenarios; non-trivial = the attacker stream contains a malformed/cut packet (or the forced teardown window) and the witness exchanged >= 10 messages spanning the attack; distinct = FNV-64 of the scenario JSON"),
@@ -18,6 +18,7 @@ CHECKS = {
         units=[
             dict(name="streams", test="TestC05Streams", checks=(300, 20000), shards=(4, 14), timeout=(240, 3000)),
             dict(name="trap", test="TestC05Trap", checks=(200, 4000), shards=(2, 8), timeout=(240, 3000)),
+            dict(name="victim", test="TestC05Victim", checks=(300, 6000), shards=(4, 14), timeout=(240, 3000)),
             dict(name="child", test="TestC05Child", kind="enum", shards=(2, 4), timeout=(240, 600)),
         ]),
 
@@ -40,21 +41,23 @@ CHECKS = {
 
     "C07": dict(
         pkg="p_broker", level="exploration",
-        technique='model-based property testing of generated SUBSCRIBE/UNSUBSCRIBE requests (1-12 filters, invalid/repeated/overlapping filters, out-of-range QoS) against a real broker, cut at barriers',
+        technique='model-based property testing of generated SUBSCRIBE/UNSUBSCRIBE requests (1-12 filters, invalid/repeated/overlapping filters, out-of-range QoS) against a real broker, cut at barriers; plus harness-scheduled windows (the processor is held inside a subscription-store call while another client publishes)',
         level_text="Each generated SUBSCRIBE must be answered before the next PINGRESP by exactly one SUBACK with the request's identifier and one return code per listed filter (granted QoS for valid filters, 0x80 or a QoS for rejected ones) unless the broker closes the connection; each UNSUBSCRIBE by exactly one UNSUBACK; publishes placed before and after the acknowledgements check that every listed filter took effect (delivered after SUBACK, not delivered after UNSUBACK) using the routing oracle of C01. Sampling.",
         level_note='Trusted: harness/ref/match, harness/ref/codec (strict parsing of every received byte), the reference model in harness/p_broker/model.go, and the barrier argument (a PINGRESP proves that everything the broker did for earlier packets of that client is committed). Known finding empty-level is excluded by a variant model run in lock-step.',
         rule='rapid-generated plans; non-trivial = a request with >= 4 filters or with an invalid filter/QoS, or an unsubscribe of a held filter followed by deliveries that distinguish the outcome; distinct = FNV-64 of the plan JSON',
-        assumptions=["sequential execution; 'takes effect at the ack' is judged for publishes sent after the ack was read"],
-        units=[dict(name="sequential", test="TestC07", checks=(3000, 30000), shards=(4, 14), timeout=(240, 3000))]),
+        assumptions=["unit sequential: 'takes effect at the ack' is judged for publishes sent after the ack was read", "unit ack-timing: the window between acknowledgement and effect is probed at the calls into the subscription store only (before/after each Subscribe/Unsubscribe call of the request), with one concurrent publisher"],
+        units=[dict(name="sequential", test="TestC07", checks=(3000, 30000), shards=(4, 14), timeout=(240, 3000)),
+               dict(name="ack-timing", test="TestC07Ack", checks=(600, 12000), shards=(4, 14), timeout=(240, 3000))]),
 
     "C08": dict(
         pkg="p_broker", level="exploration",
-        technique='model-based property testing of retained/clearing publishes and later subscriptions against a reference retained store, with filler traffic overwriting the network buffers',
+        technique='model-based property testing of retained/clearing publishes and later subscriptions against a reference retained store, with filler traffic overwriting the network buffers; plus harness-scheduled concurrent subscribers (processors parked at each packet write, released in generated order) with retained updates in between',
         level_text="Generated histories of retained, non-retained and empty-payload publishes on parent/child topics (by raw clients and Server.Publish), later subscriptions with literal and wildcard filters, reconnects and >= 1 ring of filler traffic through the publisher's connection: every new subscription must receive, before the next PINGRESP, exactly the retained messages matching its filters (1..k copies for k listed matching filters) with retain flag 1, QoS min(stored, granted) and byte-identical payload; live forwards must carry retain flag 0. Sampling.",
         level_note='Trusted: harness/ref/match, harness/ref/codec (strict parsing of every received byte), the reference model in harness/p_broker/model.go, and the barrier argument (a PINGRESP proves that everything the broker did for earlier packets of that client is committed). Known finding empty-level is excluded by a variant model run in lock-step.',
         rule='rapid-generated plans; non-trivial = a subscription received retained messages in a plan that also has a retained replacement, a clear or >= 1 ring of filler; distinct = FNV-64 of the plan JSON',
-        assumptions=['the retain flag of deliveries to in-process callbacks (Server.Subscribe) is not judged: the callback sees the message object as published', 'sequential execution in this unit'],
-        units=[dict(name="sequential", test="TestC08", checks=(3000, 25000), shards=(4, 14), timeout=(240, 3000))]),
+        assumptions=['the retain flag of deliveries to in-process callbacks (Server.Subscribe) is not judged: the callback sees the message object as published', 'unit sequential: one request at a time', 'unit retained-concurrent: 2-3 subscribers and one updating publisher; the schedule is varied at packet-write granularity (yield writeMessage.enter), not inside the retained store'],
+        units=[dict(name="sequential", test="TestC08", checks=(3000, 25000), shards=(4, 14), timeout=(240, 3000)),
+               dict(name="retained-concurrent", test="TestC08RetConc", checks=(800, 12000), shards=(4, 14), timeout=(240, 3000))]),
 
     "C09": dict(
         pkg="p_broker", level="exploration",
@@ -94,7 +97,7 @@ CHECKS = {
 
     "C12": dict(
         pkg="p_client", level="exploration",
-        technique="rapid-generated request sets and acknowledgement schedules against a scripted fake server, with the adverse interleaving (ack processed before the request is registered) forced through yield hooks; broker role: id-distinctness over generated publisher sets",
+        technique="rapid-generated request sets and acknowledgement schedules against a scripted fake server, with the adverse interleaving (ack processed before the request is registered) forced through yield hooks; broker role: id-distinctness over generated publisher sets and over harness-scheduled concurrent deliveries of shared retained messages",
         level_text=("Client role: 1-8 requests (Publish QoS 0/1/2, Subscribe, Unsubscribe, at most one Ping) are issued through the library Client to a fake server that acknowledges in a generated order, "
                     "duplicates PUBRECs, and for a generated subset forces the adverse interleaving: the sending goroutine is parked at the yield between writing and returning, the server's ack is sent and the "
                     "client's packet-handled event awaited, then the goroutine is released. Every PUBREC must be answered by a PUBREL with its id; each completion callback must fire exactly once, not before "
@@ -106,6 +109,7 @@ CHECKS = {
         units=[
             dict(name="client-role", test="TestC12Client", checks=(1500, 12000), shards=(4, 14), timeout=(240, 3000)),
             dict(name="broker-role", pkg="p_broker", test="TestC12Broker", checks=(1500, 12000), shards=(4, 14), timeout=(240, 3000)),
+            dict(name="retained-concurrent", pkg="p_broker", test="TestC12RetConc", checks=(800, 12000), shards=(4, 14), timeout=(240, 3000)),
         ]),
 
     "C13": dict(
@@ -138,11 +142,12 @@ CHECKS = {
                     "with the reference model: recipients, 1..k copies for k matching subscriptions, QoS min(publish, granted) assignable to distinct subscriptions, topic and payload byte-identical, "
                     "nothing for non-recipients. Payload sizes include 0, ~4 KiB, just below and exactly at the packet limit. Sampling."),
         level_note=("Trusted: harness/ref/match, the model in harness/p_broker, harness/ref/codec (strict parsing of every received byte), the barrier argument (fan-out is synchronous in the publisher's "
-                    "processor). Unit concurrent runs every client's operation list in its own goroutine and judges each (publish, client) pair with the interval oracle: a subscription is definitely held if its SUBACK was received before the PUBLISH was sent and its UNSUBSCRIBE was sent after the publisher's barrier returned, definitely not held if its UNSUBACK preceded the send or its SUBSCRIBE followed the barrier, otherwise either outcome is accepted (logical clock on the harness side)."),
+                    "processor). Unit concurrent runs every client's operation list in its own goroutine and judges each (publish, client) pair with the interval oracle: a subscription is definitely held if its SUBACK was received before the PUBLISH was sent and its UNSUBSCRIBE was sent after the publisher's barrier returned, definitely not held if its UNSUBACK preceded the send or its SUBSCRIBE followed the barrier, otherwise either outcome is accepted (logical clock on the harness side). Unit in-process fixes the subscriptions (raw clients and Server.Subscribe callbacks, some of them bridges that call Server.Publish from inside the callback), then publishes from 1-3 goroutines calling Server.Publish at once and from raw clients, and compares each subscriber's deliveries (message, topic, QoS) as a multiset with the exact expectation, bridged copies included."),
         rule=("rapid-generated plans (8-40 ops); non-trivial = some publish had >= 1 recipient while >= 1 connected client was not a recipient; distinct = FNV-64 of the plan JSON"),
-        assumptions=["topics and filters never start with '$'", "one live connection per client identifier", "sequential execution with exact cuts"],
+        assumptions=["topics and filters never start with '$'", "one live connection per client identifier", "unit sequential: exact cuts; unit in-process: subscriptions do not change while messages flow"],
         units=[dict(name="sequential", test="TestC01", checks=(3000, 30000), shards=(4, 14), timeout=(240, 3000)),
-               dict(name="concurrent", test="TestC01Concurrent", checks=(1200, 12000), shards=(4, 14), timeout=(240, 3000))]),
+               dict(name="concurrent", test="TestC01Concurrent", checks=(1200, 12000), shards=(4, 14), timeout=(240, 3000)),
+               dict(name="in-process", test="TestC01Inproc", checks=(1200, 20000), shards=(4, 14), timeout=(240, 3000))]),
 
     "C02": dict(
         pkg="p_broker", level="exploration",
@@ -275,6 +280,7 @@ CHECKS = {
             dict(name="controlled-noclose", test="TestC15ControlledNoClose", checks=(200, 20000), shards=(4, 14)),
             dict(name="free", test="TestC15Free", checks=(120, 6000), shards=(4, 14)),
             dict(name="pingpong", test="TestC15PingPong", kind="enum", shards=(2, 8)),
+            dict(name="close-windows", test="TestC15CloseWindows", kind="enum", shards=(8, 14)),
         ]),
 
     "C20": dict(
